@@ -42,3 +42,16 @@ Example C09_nonvacuous :
   let es := [ERing 5; ERing 2; ETurnover; ERing 2; ERing 2; ERing 5; ETurnover; ERing 5] in
   all_ok U (look_to wait_init U) es /\ bd_row (fold_left (step U) es (look_to wait_init U)) = 2.
 Proof. vm_compute. repeat split; auto; intros h [<-|[<-|[]]]; intros H; cbn in H; intuition discriminate. Qed.
+
+From Wh Require Import Parse Glue GlueP.
+From Coq Require Import ZArith QArith.
+
+(* which runs are "the default waiting mode": main.py builds the waiting rhythm unless --keep-going is given
+   (console), and always in server mode; the defaults of the console parser give a waiting, calling Bot *)
+Theorem C09_waiting_unless_keep_going : forall c cfg, console_cfg c = Ok cfg -> bc_wait cfg = negb (cl_keep_going c).
+Proof. exact waiting_unless_keep_going. Qed.
+Theorem C09_server_waits : forall id, bc_wait (server_cfg id) = true.
+Proof. exact server_waits. Qed.
+Example C09_default_console_waits : exists cfg, console_cfg default_cli = Ok cfg /\ bc_wait cfg = true /\ bc_calls cfg = true
+  /\ bc_udi cfg = false /\ bc_sar cfg = false /\ bc_peal cfg = 178%Z.
+Proof. exact default_console_waits. Qed.
